@@ -14,7 +14,8 @@ EXTENDS RegAllocInterp
 (* 64-bit registers q1..qW (W of WSet) share the GP file and are written with mixed widths; the skeleton "hdrloop"  *)
 (* adds registers P+4..P+7 that are defined first and updated/read only in the header of a loop with a two-block body *)
 (* (their liveness in the body exists only through the back edge; with P >= 66 the live sets span several words).      *)
-CONSTANTS PSet,          \* set of pressures to draw from
+CONSTANTS JAnn,          \* subset of {TRUE, FALSE}: indirect jumps with / without a JumpAnnotation
+          PSet,          \* set of pressures to draw from
           QSet,          \* set of vector-register pressures (0 = no vector registers)
           WSet,          \* set of 64-bit general register counts (0 = none); they add to the GP pressure
           Skeletons,     \* subset of {"straight","diamond","nested","loop2","irreducible","jtab","jtabloop","hdrloop","tiny"}
@@ -151,8 +152,12 @@ GenHdr == /\ plan # <<>> /\ Head(plan)[1] = "H"
           /\ \E a \in Ch(1..P) : \E o \in Ch1({"add", "xor", "sub"}) : \E imm \in Ch1({1, 3, 255}) :
                prog' = prog \o << <<"addi", Head(plan)[2], imm>>, <<o, a, Head(plan)[2]>> >>       \* loop-carried, header-only
           /\ plan' = Tail(plan)
+(* shapes of the indirect jump of a table ("old" = jmp reg through a table of label deltas) *)
+JForms == {"old", "reg", "mb", "mbi", "mbi", "mbid", "mbid", "mli", "mstk"} \cup {"mbi"}
 GenTable == /\ plan # <<>> /\ Head(plan)[1] = "T"
-            /\ \E a \in Ch(1..P) : prog' = Append(prog, <<"jtab", a, Head(plan)[2]>>)
+            /\ \E a \in Ch(1..P) : \E form \in Ch1(JForms) : \E ann \in Ch1(JAnn) :
+                 prog' = IF form = "old" THEN Append(prog, <<"jtab", a, Head(plan)[2]>>)
+                         ELSE prog \o << <<"andi", a, 3>>, <<"jtabx", a, Head(plan)[2], form, ann>> >>
             /\ plan' = Tail(plan)
 Gen == /\ phase = "gen" /\ (GenLiteral \/ GenBlockEnd \/ GenBlock \/ GenJump \/ GenTable \/ GenHdr)
        /\ UNCHANGED <<phase, P, Q, W, sk, hz, ms>>
